@@ -1034,9 +1034,17 @@ class Model:
                     else:
                         # Eliminate alg_state by aliasing it to other_state
                         if negative_alias:
-                            self.alias_relation.add(other_state.name(), "-" + alg_state.name())
+                            new_alias, opposite = "-" + alg_state.name(), alg_state.name()
                         else:
-                            self.alias_relation.add(other_state.name(), alg_state.name())
+                            new_alias, opposite = alg_state.name(), "-" + alg_state.name()
+
+                        if opposite in self.alias_relation.aliases(other_state.name()):
+                            # Already aliased with the opposite sign (x = y and x = -y).
+                            # Keep this equation, which forces both to zero, instead of
+                            # relating a variable to its own negation.
+                            return False
+
+                        self.alias_relation.add(other_state.name(), new_alias)
 
                         # To keep equations balanced, drop this equation
                         return True
